@@ -32,7 +32,7 @@ def build(shape, rng, solver_results=False):
     else:
         met["z0"] = 0.05
     if shape["ts"] == "label":
-        met["timestamps"] = ["2024-03-0%dT12:00" % (t + 1) for t in range(ns)]
+        met["timestamps"] = ["%d:30" % (8 + t) for t in range(ns)]   # '8:30' '9:30' '10:30' ...: the width of the labels grows
     raw = {"domain": {"nx": nx, "ny": ny, "xmax": 100.0, "ymax": 60.0, "nz": 3, "ref_lat": 50.0, "ref_lon": 11.0}, "towers": towers, "met": met}
     cfg = parse_config_dict(raw)
     x = np.linspace(0, 100.0, nx, endpoint=False)
@@ -145,11 +145,11 @@ def main():
         res = run_bldfm_multitower(cfg)
         first = res[cfg.towers[0].name][0]
         X, Y, Z = first["grid"]
-        if levels:
+        if np.ndim(X) == 3:
             x, y, zl = X[0, 0, :], Y[0, :, 0], Z[:, 0, 0]
         else:
             x, y, zl = X[0, :], Y[:, 0], np.array([0.0])
-        shape = {"nt": nt, "ns": ns, "nl": len(levels) if levels else 0, "ts": "label", "forcing": "ustar", "solver": True}
+        shape = {"nt": nt, "ns": ns, "nl": len(levels) if (levels and np.ndim(X) == 3) else 0, "ts": "label", "forcing": "ustar", "solver": True}
         chk.case(json.dumps(shape, sort_keys=True))
         check_shape(chk, shape, rng, work, results_override=(cfg, res, (x, y, zl)))
         n_solver += 1
